@@ -61,6 +61,10 @@ func (q *MultiOpQueryer) Subscribe(req *requests.Request, closeCh <-chan struct{
 	go func() {
 		simhook.Enter("sub.reader:" + q.url)
 		defer simhook.Exit()
+		// resCh is closed by the listener when it's gone, sending to it panics then
+		defer func() {
+			recover()
+		}()
 		defer func() {
 			defer func() {
 				recover()
